@@ -266,9 +266,10 @@ class World:
         at = rng.choice([None, ATYPES[0]]) if artifact else None
         mt_field = rng.choice([MT_OCI_I, MT_OCI_I, None, MT_DOCK_I])
         ann = rng.choice([None, None, {"idx": "1"}])
-        if not kids and subject is None and ann is None:
-            # the bytes of an empty un-annotated index equal those of an emptied referrers response,
-            # whose digest the model keeps symbolic: keep client bodies distinguishable
+        if (not kids or mt_field == MT_OCI_I) and subject is None and ann is None:
+            # the bytes of an un-annotated OCI index can equal those of a referrers response generated by the server
+            # (an emptied one, or one listing exactly the same descriptors), whose digest the model keeps symbolic:
+            # keep client bodies distinguishable
             ann = {"idx": "0"}
         body = index_manifest(kids, subject=subject, artifact_type=at, media_type=mt_field, annotations=ann)
         return body, (mt_field or MT_OCI_I)
@@ -303,7 +304,7 @@ class World:
         if rng.random() < 0.12 * self.profile["bad"]:
             bad = True
             y = rng.choice(["wrongdigest", "badctype", "othertype", "truncated", "trailing", "badref", "notjson",
-                            "toolarge", "typemismatch"])
+                            "toolarge", "typemismatch", "bodytype"])
             if y == "wrongdigest":
                 ref = self.wrong_digest(alg, body)
             elif y == "badctype":
@@ -328,6 +329,14 @@ class World:
                 ref = rng.choice([TAGS[0], dg(alg, body)])
             elif y == "typemismatch":
                 ctype = rng.choice([MT_DOCK_M, MT_DOCK_I, MT_OCI_I, MT_OCI_M])
+            elif y == "bodytype":
+                # the body declares a media type that is not a manifest type (or the other kind) whatever the header says
+                j = json.loads(body)
+                j["mediaType"] = rng.choice(["application/vnd.oci.image.config.v1+json", "application/vnd.docker.distribution.manifest.v1+json",
+                                             "application/vnd.example.unknown+json", "application/json", MT_OCI_I if "config" in j else MT_OCI_M])
+                body = json.dumps(j).encode()
+                ref = rng.choice([TAGS[0], TAGS[1], dg(alg, body)])
+                ctype = rng.choice([ctype, ctype, None, MT_OCI_M, MT_DOCK_M, MT_OCI_I])
             self.contents.add(body)
         unknown = rng.random() < 0.25
         gid = None
@@ -437,6 +446,31 @@ class World:
             ref = rng.choice(["nosuchtag", dg("sha256", b"nothing"), "sha256:zz"])
         self.add(manifest_delete(repo, ref))
         self.add(manifest_get(repo, ref))
+
+    def retag(self):
+        """one manifest under several tags, tag deletes in a random order, the manifest pushed again under one of them"""
+        rng = self.rng
+        repo = self.repo()
+        if not self.manifests[repo] or rng.random() < 0.3:
+            self.push_manifest("image", repo=repo)
+        if not self.manifests[repo]:
+            return
+        body, mt = rng.choice(self.manifests[repo])
+        tags = rng.sample(TAGS, rng.randrange(2, 5))
+        for t in tags:
+            self.add(manifest_put(repo, t, body, ctype=mt))
+            self.tags[repo].add(t)
+        order = rng.sample(tags, rng.randrange(1, len(tags) + 1))
+        for t in order:
+            self.add(manifest_delete(repo, t))
+            self.tags[repo].discard(t)
+        for t in rng.sample(tags, rng.randrange(1, 3)):
+            self.add(manifest_put(repo, t, body, ctype=mt))
+            self.tags[repo].add(t)
+        self.add(tag_list(repo, None, None))
+        if rng.random() < 0.4:
+            self.add(manifest_delete(repo, dg("sha256", body)))
+            self.add(tag_list(repo, None, None))
 
     def delete_blob(self):
         rng = self.rng
@@ -572,7 +606,7 @@ class World:
         p = self.profile
         weights = dict(blob=p["blob"] + p["chunked"], mount=p["mount"], image=p["image"], index=p["index"],
                        artifact=p["artifact"], mread=p["mread"], bread=p["bread"], tags=p["tags"], refs=p["refs"],
-                       mdel=p["mdel"], bdel=p["bdel"], sess=p["sess"])
+                       mdel=p["mdel"], bdel=p["bdel"], sess=p["sess"], retag=p.get("retag", 0.3))
         while len(self.steps) < nsteps:
             k = pick(self.rng, weights)
             if k == "blob":
@@ -596,6 +630,8 @@ class World:
                 self.delete_manifest()
             elif k == "bdel":
                 self.delete_blob()
+            elif k == "retag":
+                self.retag()
             elif k == "sess":
                 if self.rng.random() < self.profile.get("interrupt", 0.15):
                     self.interrupted_upload()
